@@ -410,11 +410,69 @@ func c15ReexamineAfterResume(c *Ctx, r *Result, dbgIface *types.Interface) {
 		return
 	}
 	n := 0
-	for _, fn := range c.Implementations(dbgIface, "VisitState") {
-		if !c.inModule(fn) {
-			continue
+	// the visit function and the same-package helpers it hands the visit to
+	var visitFns []*ssa.Function
+	isEntry := map[*ssa.Function]bool{}
+	seenV := map[*ssa.Function]bool{}
+	var addV func(fn *ssa.Function, d int)
+	addV = func(fn *ssa.Function, d int) {
+		if seenV[fn] || d > 2 || !c.inModule(fn) {
+			return
 		}
+		seenV[fn] = true
+		visitFns = append(visitFns, fn)
+		for h := range staticCalleesIn(c, fn) {
+			if c.PkgOf(h) == "interpreter" && h.Signature.Recv() != nil && namedOf(h.Signature.Recv().Type()) == namedOf(fn.Signature.Recv().Type()) {
+				addV(h, d+1)
+			}
+		}
+	}
+	for _, fn := range c.Implementations(dbgIface, "VisitState") {
+		if c.inModule(fn) && fn.Signature.Recv() != nil {
+			isEntry[fn] = true
+			addV(fn, 0)
+		}
+	}
+	// repeatsOnTrue: every static call of h sits in a loop that is continued exactly when the
+	// result is true — returning true from h means "visit this node again"
+	repeatsOnTrue := func(h *ssa.Function) bool {
+		node := c.CHA().Nodes[h]
+		if node == nil || h.Signature.Results().Len() != 1 || h.Signature.Results().At(0).Type().String() != "bool" {
+			return false
+		}
+		sites := 0
+		for _, e := range node.In {
+			if e.Site == nil || e.Site.Common().StaticCallee() != h {
+				if e.Caller.Func.Synthetic != "" {
+					continue
+				}
+				return false
+			}
+			call, ok := e.Site.(*ssa.Call)
+			if !ok {
+				return false
+			}
+			okSite := false
+			for _, ref := range *call.Referrers() {
+				ifi, isIf := ref.(*ssa.If)
+				if !isIf || ifi.Cond != ssa.Value(call) {
+					continue
+				}
+				b := ifi.Block()
+				if blockReach(b.Succs[0], true)[call.Block()] && !blockReach(b.Succs[1], true)[call.Block()] {
+					okSite = true
+				}
+			}
+			if !okSite {
+				return false
+			}
+			sites++
+		}
+		return sites > 0
+	}
+	for _, fn := range visitFns {
 		key := c.FuncKey(fn)
+		repeatFlag := !isEntry[fn] && repeatsOnTrue(fn)
 		var drops []ssa.Instruction
 		allInstrs(fn, func(in ssa.Instruction) {
 			if isBuiltinCall(in, "delete") {
@@ -483,10 +541,17 @@ func c15ReexamineAfterResume(c *Ctx, r *Result, dbgIface *types.Interface) {
 			case *ssa.If:
 				re = fromBreakTable(x.Cond)
 			case ssa.CallInstruction:
-				if f := x.Common().StaticCallee(); f == fn {
+				if f := x.Common().StaticCallee(); f == fn || (f != nil && isEntry[f]) {
 					re = true
 				} else if x.Common().IsInvoke() && x.Common().Method.Name() == "VisitState" {
 					re = true
+				}
+			case *ssa.Return:
+				// `return true` of a helper whose callers repeat the visit while it returns true
+				if repeatFlag && len(x.Results) == 1 {
+					if cv, isC := st.canon(x.Results[0]).(*ssa.Const); isC && cv.Value != nil && cv.Value.String() == "true" {
+						re = true
+					}
 				}
 			}
 			if re {
